@@ -182,9 +182,18 @@ func runC12Case(c *Ctx, kind string, optSets []int, input []rune) {
 		return
 	}
 	setOpts(t, 0)
+	if c.Evals%3 == 1 {
+		// positions do not depend on what the tokenizer read before: the empty text, a text that ends in a line break
+		safeCall(func() string { t.TokenizeBuffer(""); t.TokenizeBuffer("x\r\n"); t.TokenizeBuffer(""); return "" })
+	}
 	raw, st := tokenizeOn(t, string(input))
 	if st != "" {
 		c.fail(Failure{Kind: "oracle", Op: tokOpLine(kind, 0, input), Impl: st, Note: "tokenizer did not return normally"})
+		return
+	}
+	if msg := oracleLossless(input, raw); msg != "" && kind != "h" && kind != "H" {
+		// the positions are positions in the INPUT: tokens that do not spell the input cannot carry them
+		c.fail(Failure{Kind: "oracle", Op: tokOpLine(kind, 0, input), Impl: implLine(raw, ""), Note: "the option-free tokens do not spell the input the positions refer to: " + msg})
 		return
 	}
 	multi := strings.ContainsAny(string(input), "\r\n")
@@ -301,6 +310,13 @@ func propC12(c *Ctx) {
 		})
 	}
 	for _, k := range kinds {
+		for _, first := range []rune{0xfeff, 0xfffe, 0, 0x2028, 0x85, 0xa0, 0x200b} {
+			for _, rest := range []string{"", "a", "a b\nc", " a", "\na", "12 + 3", "{{x}}", "a,b\r\nc"} {
+				runC12Case(c, k, []int{0, 16 | 32, 127}, append([]rune{first}, []rune(rest)...))
+			}
+		}
+	}
+	for _, k := range kinds {
 		kk := k
 		enumStrings([]rune{'a', ' ', 0x1000a, 0x2000d, '\n', ','}, 3, func(s []rune) {
 			runC12Case(c, kk, []int{0, 127}, append(append([]rune(nil), s...), 'b', ' ', 'c'))
@@ -394,6 +410,28 @@ func runC15Case(c *Ctx, kind string, optSets []int, input []rune) {
 			if st2 == "" && (!eqTks(again, ts) || !eqTks(third, ts)) {
 				c.fail(Failure{Kind: "oracle", Op: op, Impl: showTks(again) + " / " + showTks(third), Spec: showTks(ts),
 					Note: "TokenizeStream on the same scanner object after Reset (second pass / pass after an abandoned presence query) gives " + showTks(again) + " / " + showTks(third) + ", the first pass gave " + showTks(ts)})
+				continue
+			}
+		}
+		if c.Evals%8 == 6 {
+			// the options in force are those set when a token is fetched: set AFTER the reader was assigned (streaming use),
+			// changed between two passes over one reader
+			var late []tk
+			st3 := safeCallT(5*time.Second, func() string {
+				t3 := newTokenizer(kind)
+				setOpts(t3, (o*37+11)%128)
+				t3.SetReader(newScanner(string(input)))
+				setOpts(t3, o)
+				var it []*tokenizers.Token
+				for n := 0; t3.HasNextToken() && n < len(input)+8; n++ {
+					it = append(it, t3.NextToken())
+				}
+				late = conv(it)
+				return ""
+			})
+			if st3 == "" && !eqTks(late, ts) {
+				c.fail(Failure{Kind: "oracle", Op: op, Impl: showTks(late), Spec: showTks(ts),
+					Note: "with the options set AFTER SetReader (streaming use) the stream is " + showTks(late) + "; with the same options set before, " + showTks(ts)})
 				continue
 			}
 		}
